@@ -1,7 +1,186 @@
-(* C20 — pipeline placeholder; replaced by the real statements *)
-From Gdsl.Model Require Import Base NodeOps.
-From Gdsl.Proofs Require Import NodeLemmas.
+(* C20 — Graphs may be mutated from inside edge loops and traversal callbacks.
+   Model: coq/model/Search.v: `edge_loop` (a manual `for e in node.iter_*()` loop) and the traversal machines re-read the heap
+   BY POSITION at every step (the code's iterators hold a node and a position, no borrow or lock across the body) and thread
+   an ARBITRARY callback that may return a changed heap. All theorems below are for arbitrary callbacks (no purity
+   assumption) unless stated. `logcb cb` (coq/model/Mutation.v) is cb instrumented to log (heap at the call, edge handed
+   out); the *_log_erase theorems show the instrumentation does not change the run. `mk_cb step .. script` (Callback.v) is
+   the closure the correspondence uses: it executes scripted node operations at given invocation indices. Handles stay valid
+   by construction: allocation ids are never reused or removed from the heap. That the implementation's iterators really hold
+   no borrow/lock across the body is what the correspondence checks (RefCell panics / lock probe / watchdog). *)
+From Gdsl.Model Require Import Spec Callback Mutation.
+From Gdsl.Proofs Require Import MutationProof.
 
-Theorem C20_placeholder_to_nil : forall (E : Type) v, to_ v (@nil (nat * E)) = [].
-Proof. exact to_nil. Qed.
-Print Assumptions C20_placeholder_to_nil.
+(* instrumenting the callback does not change an edge loop *)
+Theorem c20_edge_loop_log_erase :
+  forall (K V E CB : Type) (cb : CB -> heap K V E -> edge E -> CB * heap K V E * bool) 
+         (fuel : nat) (d : dir) (c : CB) (l : list (heap K V E * edge E)) (h : heap K V E) 
+         (u pos : nat),
+       let r := edge_loop (logcb cb) fuel d (c, l) h u pos in
+       edge_loop cb fuel d c h u pos = (fst (fst (fst r)), snd (fst r), snd r).
+Proof. exact edge_loop_log_erase. Qed.
+Print Assumptions c20_edge_loop_log_erase.
+
+(* ... nor a search *)
+Theorem c20_traversal_log_erase :
+  forall (K V E : Type) (keqb : K -> K -> bool) (CB : Type)
+         (cb : CB -> heap K V E -> edge E -> CB * heap K V E * bool) (vleb : V -> V -> bool) 
+         (k : kind) (d : dir) (fuel : nat) (h : heap K V E) (c : CB) (l : list (heap K V E * edge E))
+         (root : nat) (target : option K) (cyc : bool),
+       let r := run_search keqb (logcb cb) vleb k d fuel h (c, l) root target cyc in
+       let r0 := run_search keqb cb vleb k d fuel h c root target cyc in
+       snd r0 = snd r /\
+       s_heap (fst r0) = s_heap (fst r) /\
+       s_vis (fst r0) = s_vis (fst r) /\
+       s_tree (fst r0) = s_tree (fst r) /\ s_cb (fst r0) = fst (s_cb (fst r)).
+Proof. exact run_search_log_erase. Qed.
+Print Assumptions c20_traversal_log_erase.
+
+(* ... nor an ordering *)
+Theorem c20_order_log_erase :
+  forall (K V E : Type) (keqb : K -> K -> bool) (CB : Type)
+         (cb : CB -> heap K V E -> edge E -> CB * heap K V E * bool) (d : dir) (post : bool) 
+         (fuel : nat) (h : heap K V E) (c : CB) (l : list (heap K V E * edge E)) 
+         (root : nat),
+       let r := order_edges keqb (logcb cb) d post fuel h (c, l) root in
+       let r0 := order_edges keqb cb d post fuel h c root in
+       snd r0 = snd r /\
+       s_heap (fst r0) = s_heap (fst r) /\
+       s_vis (fst r0) = s_vis (fst r) /\
+       s_tree (fst r0) = s_tree (fst r) /\ s_cb (fst r0) = fst (s_cb (fst r)).
+Proof. exact order_log_erase. Qed.
+Print Assumptions c20_order_log_erase.
+
+(* every edge a plain edge loop yields is, at the moment it is yielded, an entry of the walked node's list in the current heap, with its stored value *)
+Theorem c20_edge_loop_yields_exist :
+  forall (K V E CB : Type) (cb : CB -> heap K V E -> edge E -> CB * heap K V E * bool) 
+         (fuel : nat) (d : dir) (c : CB) (h : heap K V E) (u pos : nat) (c' : CB)
+         (l' : list (heap K V E * edge E)) (h' : heap K V E) (ok : bool),
+       edge_loop (logcb cb) fuel d (c, []) h u pos = (c', l', h', ok) ->
+       forall (hh : heap K V E) (e : edge E),
+       In (hh, e) l' -> is_iter_edge hh d e /\ match d with
+                                               | DIn => edst e = u
+                                               | _ => esrc e = u
+                                               end.
+Proof. exact edge_loop_yields_exist. Qed.
+Print Assumptions c20_edge_loop_yields_exist.
+
+(* every edge a search hands to the closure is, at that moment, an adjacency entry of its source in the current heap *)
+Theorem c20_traversal_yields_exist :
+  forall (K V E : Type) (keqb : K -> K -> bool) (CB : Type)
+         (cb : CB -> heap K V E -> edge E -> CB * heap K V E * bool) (vleb : V -> V -> bool) 
+         (k : kind) (d : dir) (fuel : nat) (h : heap K V E) (c : CB) (root : nat) 
+         (target : option K) (cyc : bool) (hh : heap K V E) (e : edge E),
+       In (hh, e) (snd (s_cb (fst (run_search keqb (logcb cb) vleb k d fuel h (c, []) root target cyc)))) ->
+       is_trav_edge hh d e.
+Proof. exact traversal_yields_exist. Qed.
+Print Assumptions c20_traversal_yields_exist.
+
+(* same for orderings *)
+Theorem c20_order_yields_exist :
+  forall (K V E : Type) (keqb : K -> K -> bool) (CB : Type)
+         (cb : CB -> heap K V E -> edge E -> CB * heap K V E * bool) (d : dir) (post : bool) 
+         (fuel : nat) (h : heap K V E) (c : CB) (root : nat) (hh : heap K V E) (e : edge E),
+       In (hh, e) (snd (s_cb (fst (order_edges keqb (logcb cb) d post fuel h (c, []) root)))) ->
+       is_trav_edge hh d e.
+Proof. exact order_yields_exist. Qed.
+Print Assumptions c20_order_yields_exist.
+
+(* whatever the closure does to the graph, backtracking never panics *)
+Theorem c20_search_never_panics :
+  forall (K V E : Type) (keqb : K -> K -> bool) (CB : Type)
+         (cb : CB -> heap K V E -> edge E -> CB * heap K V E * bool) (vleb : V -> V -> bool) 
+         (k : kind) (d : dir) (fuel : nat) (h : heap K V E) (c : CB) (root : nat) 
+         (target : option K) (cyc : bool),
+       snd (search_path keqb cb vleb k d fuel h c root target cyc) <> RPanic E.
+Proof. exact search_never_panics. Qed.
+Print Assumptions c20_search_never_panics.
+
+(* operations executed from inside a closure keep the mirror invariant and none of them panics (directed) *)
+Theorem c20_script_keeps_invariant_directed :
+  forall (K V E : Type) (keqb : K -> K -> bool),
+       KeqbSpec keqb ->
+       forall (is_filter : bool) (pred : K -> K -> E -> bool) (script : list (nat * list (op K V E)))
+         (c : cbst E) (h : heap K V E) (e : edge E),
+       Inv h ->
+       (forall (k : K) (i : nat) (ops : list (op K V E)) (x : V),
+        In (i, ops) script -> In (ONew k x) ops -> False) ->
+       Inv (snd (fst (mk_cb (step_d keqb) is_filter pred script c h e))) /\
+       (forall o : outcome E,
+        In o (c_log (fst (fst (mk_cb (step_d keqb) is_filter pred script c h e)))) ->
+        In o (c_log c) \/ o <> Panic).
+Proof. exact mk_cb_inv_d. Qed.
+Print Assumptions c20_script_keeps_invariant_directed.
+
+(* same (undirected) *)
+Theorem c20_script_keeps_invariant_undirected :
+  forall (K V E : Type) (keqb : K -> K -> bool),
+       KeqbSpec keqb ->
+       forall (is_filter : bool) (pred : K -> K -> E -> bool) (script : list (nat * list (op K V E)))
+         (c : cbst E) (h : heap K V E) (e : edge E),
+       Inv h ->
+       (forall (k : K) (i : nat) (ops : list (op K V E)) (x : V),
+        In (i, ops) script -> In (ONew k x) ops -> False) ->
+       Inv (snd (fst (mk_cb (step_u keqb) is_filter pred script c h e))) /\
+       (forall o : outcome E,
+        In o (c_log (fst (fst (mk_cb (step_u keqb) is_filter pred script c h e)))) ->
+        In o (c_log c) \/ o <> Panic).
+Proof. exact mk_cb_inv_u. Qed.
+Print Assumptions c20_script_keeps_invariant_undirected.
+
+(* if the closure keeps the invariant, it holds after every search, ordering and edge loop *)
+Theorem c20_invariant_after_loop :
+  forall (K V E : Type) (keqb : K -> K -> bool) (CB : Type)
+         (cb : CB -> heap K V E -> edge E -> CB * heap K V E * bool),
+       (forall (c : CB) (h : heap K V E) (e : edge E), Inv h -> Inv (snd (fst (cb c h e)))) ->
+       forall h : heap K V E,
+       Inv h ->
+       (forall (vleb : V -> V -> bool) (k : kind) (d : dir) (fuel : nat) (c : CB) 
+          (root : nat) (target : option K) (cyc : bool),
+        Inv (s_heap (fst (run_search keqb cb vleb k d fuel h c root target cyc)))) /\
+       (forall (d : dir) (post : bool) (fuel : nat) (c : CB) (root : nat),
+        Inv (s_heap (fst (order_edges keqb cb d post fuel h c root)))) /\
+       (forall (fuel : nat) (d : dir) (c : CB) (u pos : nat), Inv (snd (fst (edge_loop cb fuel d c h u pos)))).
+Proof. exact traversal_inv. Qed.
+Print Assumptions c20_invariant_after_loop.
+
+(* an edge loop ends (within len - pos steps) once the closure no longer lengthens the walked list *)
+Theorem c20_edge_loop_terminates :
+  forall (K V E CB : Type) (cb : CB -> heap K V E -> edge E -> CB * heap K V E * bool) 
+         (d : dir) (u : nat),
+       (forall (c : CB) (h : heap K V E) (e : edge E),
+        length (adj_of (snd (fst (cb c h e))) d u) <= length (adj_of h d u)) ->
+       forall (fuel : nat) (c : CB) (h : heap K V E) (pos : nat),
+       length (adj_of h d u) - pos < fuel -> snd (edge_loop cb fuel d c h u pos) = true.
+Proof. exact edge_loop_terminates. Qed.
+Print Assumptions c20_edge_loop_terminates.
+
+(* a search terminates (fuel_bound suffices) when the closure adds neither nodes nor edges — it may remove them *)
+Theorem c20_traversal_terminates :
+  forall (K V E : Type) (keqb : K -> K -> bool) (CB : Type)
+         (cb : CB -> heap K V E -> edge E -> CB * heap K V E * bool),
+       KeqbSpec keqb ->
+       (forall (c : CB) (h : heap K V E) (e : edge E) (w : nat),
+        nodes (snd (fst (cb c h e))) = nodes h /\
+        length (outs (snd (fst (cb c h e))) w) <= length (outs h w) /\
+        length (ins (snd (fst (cb c h e))) w) <= length (ins h w)) ->
+       forall (vleb : V -> V -> bool) (k : kind) (d : dir) (fuel : nat) (h : heap K V E) 
+         (c : CB) (root : nat) (target : option K) (cyc : bool),
+       Wf h ->
+       fuel_bound h <= fuel -> snd (run_search keqb cb vleb k d fuel h c root target cyc) <> OutOfFuel.
+Proof. exact traversal_terminates. Qed.
+Print Assumptions c20_traversal_terminates.
+
+(* same for orderings *)
+Theorem c20_order_terminates :
+  forall (K V E : Type) (keqb : K -> K -> bool) (CB : Type)
+         (cb : CB -> heap K V E -> edge E -> CB * heap K V E * bool),
+       KeqbSpec keqb ->
+       (forall (c : CB) (h : heap K V E) (e : edge E) (w : nat),
+        nodes (snd (fst (cb c h e))) = nodes h /\
+        length (outs (snd (fst (cb c h e))) w) <= length (outs h w) /\
+        length (ins (snd (fst (cb c h e))) w) <= length (ins h w)) ->
+       forall (d : dir) (post : bool) (fuel : nat) (h : heap K V E) (c : CB) (root : nat),
+       Wf h -> fuel_bound h <= fuel -> snd (order_edges keqb cb d post fuel h c root) <> None.
+Proof. exact order_terminates. Qed.
+Print Assumptions c20_order_terminates.
+
